@@ -99,6 +99,63 @@ def quote_case(s):
     return ops
 
 
+def ident_needed(s, words):
+    import re
+    if re.fullmatch(rb"[a-z_][a-z0-9_]*", s) and s not in words:
+        return len(s) + 1
+    return len(s) + s.count(b'"') + 3
+
+
+LONG_FILLS = [b"a", b"A", b'"', b" ", b"\\", b"\xff", b"a\"", b"_0", b"'"]
+LONG_NAMES = [b"tbl", b'x"y', b"a.b", b"select", b"T", b""]
+LONG_LENS = [63, 64, 65, 127, 128, 129, 255, 256]
+SCHEMA_LENS = list(range(120, 136)) + [200, 300]
+
+
+def sizes_around(*needs):
+    out = {0, 1, 2, 3}
+    for n in needs:
+        out |= {max(0, n - 2), max(0, n - 1), n, n + 1, n + 2, n + 50}
+    out |= {max(needs) + 700}
+    return sorted(out)
+
+
+def long_cases(rng, words, full):
+    """boundaries that need long inputs: the 128-byte schema buffer of pg_quote_fqident (schema
+    parts of 120..135, 200, 300 bytes: plain, upper case, quotes, blanks, backslashes, high-bit
+    bytes; name parts with quotes/dots/reserved words), and long plain identifiers/literals
+    (63/64/65, 127/128/129, 255/256 bytes) for the other entry points.  Destination sizes: around
+    the needed size of the real result, around the size a result with the schema cut to 127
+    bytes would need, tiny ones and generous ones."""
+    wset = set(words)
+    cases = []
+    for L in SCHEMA_LENS:
+        for fill in LONG_FILLS:
+            scm = (fill * L)[:L]
+            if rng.chance(1, 3):                      # make the part after byte 127 differ
+                scm = scm[:-1] + rng.choice([b"z", b"Z", b'"'])
+            names = LONG_NAMES if full else [rng.choice(LONG_NAMES)]
+            for name in names:
+                s = scm + b"." + name
+                need = ident_needed(scm, wset) + ident_needed(name, wset)
+                need_cut = ident_needed(scm[:127], wset) + ident_needed(name, wset)
+                h = vf.hexs(s)
+                cases.append(["fq %s %d" % (h, n) for n in sizes_around(need, need_cut)])
+    for L in LONG_LENS:
+        for fill in LONG_FILLS:
+            s = (fill * L)[:L]
+            if rng.chance(1, 2):
+                s = s[:rng.below(L)] + rng.choice([b"'", b'"', b"\\", b"z"]) + s
+                s = s[:L]
+            h = vf.hexs(s)
+            ops = ["lit %s %d" % (h, n) for n in sizes_around(lit_needed(s))]
+            ops += ["id %s %d" % (h, n) for n in sizes_around(ident_needed(s, wset))]
+            # no dot (unless the fill has none anyway): schema "public", long name
+            ops += ["fq %s %d" % (h, n) for n in sizes_around(ident_needed(s, wset) + 7)]
+            cases.append(ops)
+    return cases
+
+
 def render_elem(rng, e):
     if e is None:
         return rng.choice([b"NULL", b"null", b"Null", b"nULL", b"nuLl"])
@@ -227,7 +284,10 @@ def run(ck):
     ck.cov["rule"] = (
         "quote: one case = one byte string (tokens from {' \" \\ . { } , space tab \\n a z _ 0 é 0xFF} "
         "∪ reserved words ∪ a few extra words, length 0..40) run through pg_quote_literal/ident/fqident "
-        "at EVERY dstlen in 0..len+8 and around the exact fit; array: one case = a list rendered by the "
+        "at EVERY dstlen in 0..len+8 and around the exact fit; long inputs: schema parts of 120..135/200/300 "
+        "bytes for pg_quote_fqident (across its 128-byte scmbuf) and 63..65/127..129/255/256-byte strings "
+        "for all entry points, at sizes around the needed length (real and schema-cut-to-127), tiny and "
+        "generous; array: one case = a list rendered by the "
         "generator (quoted/bare/escaped/NULL/blanks/dimension prefix) + every truncation + 1-byte "
         "substitutions at every position + insertions; kw: every word of the .g list and neighbours. "
         "evaluations = op lines run through implementation and model; distinct_nontrivial = distinct op "
@@ -289,6 +349,15 @@ def run(ck):
     for _ in range(nq):
         qcases.append(quote_case(gen_string(rng, allwords)))
     qcases.append(["lit null %d" % n for n in range(0, 12)])
+    lcases = long_cases(rng, words, full=not ck.quick())
+    hist["long_input_cases"] = len(lcases)
+    def schema_len(op):
+        w = op.split(" ")
+        raw = b"" if w[1] == "-" else bytes.fromhex(w[1])
+        return raw.index(b".") if (w[0] == "fq" and b"." in raw) else -1
+    hist["long_fq_schema_ge_128_ops"] = sum(1 for c in lcases for op in c if schema_len(op) >= 128)
+    hist["long_fq_schema_120_127_ops"] = sum(1 for c in lcases for op in c if 120 <= schema_len(op) < 128)
+    qcases += lcases
     hist["quote_strings"] = len(qcases)
     hist["quote_ops"] = sum(len(c) for c in qcases)
     stream("quote", qcases)
